@@ -921,6 +921,12 @@ def class_scenario(rng, name):
     if timed and rules and rng.random() < 0.7:
         n, kv = rules[0]
         rules[0] = (n, [x for x in kv if x[0] != "xreply_ok"] + [("xreply_ok", rng.choice([s[0] for s in services]))])
+    trusted = bool(rules) and rng.random() < 0.15
+    if trusted:
+        # the first rule in name order matches everybody and trusts the user name: the class module
+        # calls back into the core from inside iauth_accept (seeded change C01-2)
+        k = min(range(len(rules)), key=lambda q: (rules[q][0].lower(), rules[q][0]))
+        rules[k] = (rules[k][0], [x for x in rules[k][1] if x[0] == "class"] + [("trust_username", "yes")])
     accounts = ACCOUNTS
     if rules and rng.random() < 0.12:
         # account names beyond ircu's own twelve bytes against patterns that look at their far end
@@ -931,7 +937,8 @@ def class_scenario(rng, name):
     cfg = Cfg(timeout=tmo, services=services, rules=rules)
     scripts = {}
     for cid in rng.sample([1, 2, 5, 7], rng.choice([1, 2])):
-        ev = [("C", rng.choice(CADDRS), "1234"), ("line", "N " + rng.choice(HOSTS)), ("line", "u " + rng.choice(IDENTS)),
+        ev = [("C", rng.choice(CADDRS), "1234"), ("line", "N " + rng.choice(HOSTS)),
+              ("line", "u " + (rng.choice(["~ident", "~x", "~"]) if trusted and rng.random() < 0.8 else rng.choice(IDENTS))),
               ("line", "n nick"), ("line", "U user :real name")]
         silent = timed and rng.random() < 0.8
         if rng.random() < 0.85:
@@ -942,7 +949,12 @@ def class_scenario(rng, name):
             ev.append(("reply", "X", "drone.srv", rng.choice(["OK", "OK", "AGAIN x"]), "cur"))
         if silent:
             ev.insert(rng.randint(max(1, len(ev) - 1), len(ev)), ("timeout",))
-        ev.append(("line", "H"))
+        # the server's hurry-up may name the class it would use itself; the rule table decides all the
+        # same (seeded change C11-10x11 kept that class as a default and so skipped the rules)
+        ev.append(("line", rng.choice(["H", "H", "H users", "H cls-hurry", "H Others extra"])))
+        if rng.random() < 0.3:
+            # … also before the client's data is complete, which is when a hurry-up decides anything
+            ev.insert(rng.randint(1, len(ev) - 1), ("line", rng.choice(["H users", "H cls-hurry", "H Others extra", "H"])))
         scripts[cid] = ev
     head = header("class", cfg)
     if rules and rng.random() < 0.3:
@@ -1517,6 +1529,26 @@ def _gen_cases(prop, tier, seed):
                     probe = {cid: client_script(rng, cid, new, mods) for cid in rng.sample([1, 2, 5, 7], 2)}
                     probe = {cid: [e for e in ev if not (e[0] == "reply" and e[4] not in ("cur", "stale"))] for cid, ev in probe.items()}
                     pops = render_schedule(rng, probe) + [inl("-1 ? :config")]
+            if i % 12 == 2 or i % 12 == 9:
+                # a protocol word the module does not know (a typing slip: the entry is listed, its
+                # service is dropped again) that the next file corrects in place - and nothing else
+                # changes, so only that entry's own hook runs (seeded change C17-10x2 let the entry hook
+                # update the service it found by name and left adding to the section's hook) - or the
+                # other way round
+                mods = rng.choice(["xquery", "class"])
+                others = [(n_, rng.choice(SVC_TYPES)) for n_ in rng.sample(["login.srv", "ipr.srv", "combo.srv"], rng.choice([0, 1, 2]))]
+                good = rng.choice(["dronecheck", "dronecheck", "login", "combined"])
+                bad = rng.choice(["dronechek", "login_ipr", "bogus", "DRONE", ""])
+                v1, v2 = (bad, good) if i % 12 == 2 or rng.random() < 0.7 else (good, bad)
+                rules = [("a", [("class", "cls-a")])] if mods == "class" else []
+                mk = lambda v: Cfg(timeout=0, services=sorted(others + [("drone.srv", v)]), rules=rules)
+                old, chain = mk(v1), [mk(v2)]
+                if rng.random() < 0.3:
+                    chain = [mk(v1), mk(v2)] if rng.random() < 0.5 else [mk(v2), mk(v1), mk(v2)]
+                new = chain[-1]
+                pre = []
+                probe = {cid: client_script(rng, cid, new, mods) for cid in rng.sample([1, 2, 5, 7], 2)}
+                pops = render_schedule(rng, probe) + [inl("-1 ? :config")]
             if i % 6 == 1:
                 # a reload that touches only the services while a rule of the *other* module names one of
                 # them: whatever that module remembered about the service table while serving an earlier
